@@ -4,6 +4,7 @@ import (
 	"github.com/freeconf/yang/parser"
 	"reflect"
 	"errors"
+	"io"
 	"fmt"
 	"strings"
 
@@ -114,8 +115,150 @@ func c08expectLeaves(kids []*gen.SNode, body []*gen.DNode) string {
 	return sb.String()
 }
 
+// names in a path: the module qualifier of a step is the name of the node's defining module (RFC 8040 3.5.3; the
+// module the JSON writer qualifies the node with), a step names a data node (not a choice, not a case, not two
+// levels at once), and the path of what is found says where it is
+func c08names(c *core.Ctx) {
+	files := map[string]string{
+		"b": `module b { namespace "urn:b"; prefix bp; revision 2020-01-01; grouping g { container gc { leaf gl { type string; } container in { leaf q { type string; } } } } container c { leaf x { type string; } } }`,
+		"a": `module a { namespace "urn:a"; prefix ap; revision 2020-01-01; import b { prefix bp; } uses bp:g; container c { leaf z { type string; } }
+  augment "/c" { leaf aug { type string; } }
+  container fruit { leaf apple { type string; } leaf pear { type string; } }
+  container top { container gc { leaf q { type string; } } uses bp:g { refine gc { description "again"; } } }
+  list country { key name; leaf name { type string; } container detail { leaf ally { type string; } } list city { key "n i"; leaf n { type string; } leaf i { type int32; } leaf pop { type int32; } } }
+  list fruits { key name; leaf name { type string; } choice shipment { case water { container boat { leaf n { type string; } } } case air { container plane { leaf n { type string; } } } } } }`,
+	}
+	files["a"] = strings.Replace(files["a"], `container gc { leaf q { type string; } } uses bp:g { refine gc { description "again"; } }`, `container sub { uses bp:g; }`, 1)
+	opener := func(name, ext string) (io.Reader, error) {
+		if y, ok := files[name]; ok {
+			return strings.NewReader(y), nil
+		}
+		return nil, fmt.Errorf("no module %s", name)
+	}
+	m, err := parser.LoadModule(opener, "a")
+	if err != nil {
+		c.Violation(core.Replay{Kind: "property-failure", Class: "names-load", Summary: "valid module set does not load: " + err.Error(), Input: files})
+		return
+	}
+	data := `{"gc":{"gl":"GL","in":{"q":"Q"}},"c":{"z":"Z","aug":"A"},"fruit":{"apple":"A","pear":"P"},"top":{"sub":{"gc":{"gl":"G2"}}},"country":[{"name":"US","detail":{"ally":"UK"},"city":[{"n":"NY","i":1,"pop":8}]}],"fruits":[{"name":"apple","boat":{"n":"B"}}]}`
+	root := func() *node.Selection {
+		n, _ := nodeutil.ReadJSON(data)
+		return node.NewBrowser(m, n).Root()
+	}
+	show := func(s *node.Selection, err error) string {
+		if err != nil {
+			if errors.Is(err, fc.NotFoundError) {
+				return "not-found"
+			}
+			if errors.Is(err, fc.BadRequestError) {
+				return "bad-request"
+			}
+			return "error " + short(err.Error())
+		}
+		if s == nil {
+			return "nil"
+		}
+		return s.Path.String()
+	}
+	type tcase struct{ start, find, want string }
+	cases := []tcase{
+		// the path of a leaf found from another start than the root
+		{"country=US/detail", "ally", "a/country=US/detail/ally"},
+		{"country=US/detail", "../city=NY,1/pop", "a/country=US/city=NY,1/pop"},
+		{"country=US", "detail/ally", "a/country=US/detail/ally"},
+		{"", "country=US/detail/ally", "a/country=US/detail/ally"},
+		{"fruit", "apple", "a/fruit/apple"},
+		// qualifiers
+		{"", "a:fruit", "a/fruit"},
+		{"", "a:fruit/a:apple", "a/fruit/apple"},
+		{"", "fruit/a:apple", "a/fruit/apple"},
+		{"", "fruit/bogus:apple", "not-found"},
+		{"", "bogus:fruit", "not-found"},
+		{"", "fruit/b:apple", "not-found"},
+		{"", "ap:fruit", "not-found"},
+		{"", "b:c", "not-found"},
+		{"", "bp:c", "not-found"},
+		{"", "bp:c/x", "not-found"},
+		{"", "a:c", "a/c"},
+		{"", "a:c/a:aug", "a/c/aug"},
+		{"", "c/b:aug", "not-found"},
+		// the nodes of an imported grouping carry the name of the module the grouping is written in: the library's
+		// convention for "defining module", pinned by its TestQualifiedJson (RFC 7950 7.13 would say a)
+		{"", "b:gc", "a/gc"},
+		{"", "b:gc/b:gl", "a/gc/gl"},
+		{"", "gc/b:in/q", "a/gc/in/q"},
+		{"", "a:gc", "not-found"},
+		{"", "gc/a:gl", "not-found"},
+		{"", "top/a:sub/b:gc/gl", "a/top/sub/gc/gl"},
+		{"", "top/sub/a:gc", "not-found"},
+		// a step is one data node
+		{"", "fruits=apple/shipment", "not-found"},
+		{"", "fruits=apple/water", "not-found"},
+		{"", "fruits=apple/shipment/water/boat", "not-found"},
+		{"", "fruits=apple/boat", "a/fruits=apple/boat"},
+		{"", "fruits=apple/boat/n", "a/fruits=apple/boat/n"},
+		{"", "top%2Fsub", "not-found"},
+		{"", "top/..%2Fc", "not-found"},
+		{"", "top/sub%2Fgc", "not-found"},
+		{"top", "..%2Fc", "not-found"},
+	}
+	for _, tc := range cases {
+		var got string
+		e := safeDo(func() error {
+			s := root()
+			if tc.start != "" {
+				var err error
+				if s, err = s.Find(tc.start); err != nil || s == nil {
+					return fmt.Errorf("start %s: %v", tc.start, err)
+				}
+			}
+			got = show(s.Find(tc.find))
+			return nil
+		})
+		if e != nil {
+			got = "error " + short(e.Error())
+		}
+		c.Evaluations++
+		c.Count("names", map[bool]string{true: "refused", false: "reached"}[tc.want == "not-found"])
+		c.Distinct("names " + tc.start + " " + tc.find)
+		if got != tc.want {
+			c.Violation(core.Replay{Kind: "property-failure", Class: "names", Summary: fmt.Sprintf("from %q, Find(%q) gives %s, want %s", tc.start, tc.find, got, tc.want),
+				Input: map[string]interface{}{"yang": files, "data": data, "start": tc.start, "find": tc.find}, Impl: got, Spec: tc.want})
+		}
+	}
+	// Path.Equal tells locations apart
+	for _, pc := range []struct {
+		a, b string
+		want bool
+	}{{"fruit/apple", "fruit/pear", false}, {"fruit/apple", "fruit/apple", true}, {"fruit", "top", false}, {"country=US/detail", "country=US/detail", true}, {"gc", "top/sub/gc", false}, {"gc/gl", "top/sub", false}} {
+		var got bool
+		e := safeDo(func() error {
+			x, err := root().Find(pc.a)
+			if err != nil || x == nil {
+				return fmt.Errorf("find %s: %v", pc.a, err)
+			}
+			y, err := root().Find(pc.b)
+			if err != nil || y == nil {
+				return fmt.Errorf("find %s: %v", pc.b, err)
+			}
+			got = x.Path.Equal(y.Path)
+			if got != x.Path.EqualNoKey(y.Path) {
+				return fmt.Errorf("Equal and EqualNoKey differ on paths without keys that differ")
+			}
+			return nil
+		})
+		c.Evaluations++
+		c.Count("names", "path-equal")
+		if e != nil || got != pc.want {
+			c.Violation(core.Replay{Kind: "property-failure", Class: "path-equal", Summary: fmt.Sprintf("Path.Equal of %q and %q is %v, want %v (%v)", pc.a, pc.b, got, pc.want, e),
+				Input: map[string]interface{}{"yang": files, "data": data, "a": pc.a, "b": pc.b}, Impl: fmt.Sprint(got), Spec: fmt.Sprint(pc.want)})
+		}
+	}
+}
+
 func C08(c *core.Ctx) {
-	c.Rule = "for every container and list entry of generated trees (depth ≤4, lists in lists, compound keys, hostile key alphabet / , = % + blank non-ASCII empty): Find from the root, with a trailing slash, module-qualified, from a deeper start selection through ../ steps, and with a query parameter; the selection's content, its rendered path (re-parsed and re-found), absent keys/containers, unknown names, store unchanged; the Lean path codec is compared with Path.String on the same segments; start selections on a set leaf (its Parent(), its path, ../ steps from it); a store that answers lookups by key without returning the key. non-trivial = node at depth ≥2 or with a key needing escaping; distinct by (tree, node, variant)"
+	c08names(c)
+	c.Rule = "for every container and list entry of generated trees (depth ≤4, lists in lists, compound keys, hostile key alphabet / , = % + blank non-ASCII empty): Find from the root, with a trailing slash, module-qualified, from a deeper start selection through ../ steps, and with a query parameter; the selection's content, its rendered path (re-parsed and re-found), absent keys/containers, unknown names, store unchanged; the Lean path codec is compared with Path.String on the same segments; start selections on a set leaf (its Parent(), its path, ../ steps from it); a store that answers lookups by key without returning the key. non-trivial = node at depth ≥2 or with a key needing escaping; distinct by (tree, node, variant); directed (c08names): two modules, an imported grouping, an augment, a choice: 34 qualified, misqualified, choice/case and percent-encoded-slash steps from the root and from deeper starts, the rendered path of leaf selections found from every start, Path.Equal on 6 pairs"
 	c.Assumptions = append(c.Assumptions, "net/url.QueryEscape/QueryUnescape are modelled on bytes (Model/Path.lean) and compared on every generated key")
 	c.ProofStep("YangVerif.Props.C08")
 	if c.Thorough() {
